@@ -36,6 +36,11 @@ ATTRS_X = dict(ATTRS6)
 ATTRS_X.update({
     "backtrace, source": (True, True, False),
     "source, not(backtrace)": (True, False, False),
+    # the same options in the other order, and two negations (order inside one attribute must not matter)
+    "not(backtrace), source": (True, False, False),
+    "source, backtrace": (True, True, False),
+    "not(source), not(backtrace)": (False, False, False),
+    "not(backtrace), not(source)": (False, False, False),
 })
 
 ERR, BT, PLN = "err", "bt", "pln"   # holds an error / type named `Backtrace` / neither
@@ -48,9 +53,16 @@ use std::backtrace::Backtrace;
 use std::backtrace;
 pub type MyBt = std::backtrace::Backtrace;
 pub fn lid(l: &Leaf) -> String { format!("Leaf({})@{}", l.0, addr(l)) }
-pub fn bid0(b: &Box<dyn StdError + 'static>) -> String { match b.downcast_ref::<Leaf>() { Some(l) => lid(l), None => "?".to_string() } }
-pub fn bid1(b: &Box<dyn StdError + Send + 'static>) -> String { match b.downcast_ref::<Leaf>() { Some(l) => lid(l), None => "?".to_string() } }
-pub fn bid2(b: &Box<dyn StdError + Send + Sync + 'static>) -> String { match b.downcast_ref::<Leaf>() { Some(l) => lid(l), None => "?".to_string() } }
+// a boxed error that has a source of its own: `source()` of the outer type must still be the boxed
+// object itself, not one level further down the chain
+#[derive(Debug)]
+pub struct Chain(pub u32, pub Leaf);
+impl std::fmt::Display for Chain { fn fmt(&self, f: &mut std::fmt::Formatter<'_>) -> std::fmt::Result { write!(f, "chain{}", self.0) } }
+impl StdError for Chain { fn source(&self) -> Option<&(dyn StdError + 'static)> { Some(&self.1) } }
+pub fn cid(c: &Chain) -> String { format!("Other({})@{}", c, addr(c)) }
+pub fn bid0(b: &Box<dyn StdError + 'static>) -> String { match b.downcast_ref::<Leaf>() { Some(l) => lid(l), None => match b.downcast_ref::<Chain>() { Some(c) => cid(c), None => "?".to_string() } } }
+pub fn bid1(b: &Box<dyn StdError + Send + 'static>) -> String { match b.downcast_ref::<Leaf>() { Some(l) => lid(l), None => match b.downcast_ref::<Chain>() { Some(c) => cid(c), None => "?".to_string() } } }
+pub fn bid2(b: &Box<dyn StdError + Send + Sync + 'static>) -> String { match b.downcast_ref::<Leaf>() { Some(l) => lid(l), None => match b.downcast_ref::<Chain>() { Some(c) => cid(c), None => "?".to_string() } } }
 """
 NIGHTLY_HEADER = "#![feature(error_generic_member_access)]\n" + l2.HEADER
 
@@ -247,7 +259,8 @@ class Conc:
                     # (boxed sources next to a backtrace do not compile: the derived provide() calls
                     # `Error::provide(&self.field, ..)` on the Box; provide() is outside this property)
                     bt_, fn = rng.choice(BOXES)
-                    self.ty.append(bt_); self.inst.append(None); self.val.append("Box::new(Leaf(%d))" % p); self.idf.append(fn)
+                    boxed = "Box::new(Leaf(%d))" % p if rng.random() < 0.55 else "Box::new(Chain(%d, Leaf(%d)))" % (p, p + 1)
+                    self.ty.append(bt_); self.inst.append(None); self.val.append(boxed); self.idf.append(fn)
                 else:
                     self.ty.append("Leaf"); self.inst.append(None); self.val.append("Leaf(%d)" % p); self.idf.append("lid")
             elif c == BT:
@@ -461,7 +474,7 @@ def random_layout(rng):
     named = rng.random() < 0.5
     n = rng.choice((0, 1, 1, 2, 2, 2, 3, 3, 3))
     keys = list(ATTRS_X)
-    w = [4, 2, 1.5, 1.5, 1.5, 2.5, 0.5, 0.5]
+    w = [4, 2, 1.5, 1.5, 1.5, 2.5, 0.5, 0.5] + [0.4] * (len(keys) - 8)
     at = tuple(rng.choices(keys, w)[0] for _ in range(n))
     if named:
         names = rng.choice(name_patterns(n))
